@@ -214,7 +214,11 @@ func streamAPI(seed uint64, idx int) caseT {
 		g.budget = 30
 		e := render(g.expr(docs[g.r.intn(nd)], 2+g.r.intn(2)), g.r.intn(3), g.r)
 		if g.r.chance(15) && len(e) > 1 {
-			e = e[:g.r.intn(len(e))]
+			// a truncated prefix can lose the order-insensitive consumer of a guarded unit
+			// ("o.* | length(@)" -> "o.*"): cut only where no object iteration is left exposed
+			if cut := e[:g.r.intn(len(e))]; g.single || !(strings.Contains(cut, "*") || strings.Contains(cut, "keys") || strings.Contains(cut, "values")) {
+				e = cut
+			}
 		}
 		return e
 	}
